@@ -15,7 +15,9 @@ def gen(rng, tier):
         for _ in range(rng.randrange(3, 60)):
             r = rng.random()
             if r < 0.5: cmds.append(gens.set_cmd(rng, 0))
-            elif r < 0.85: cmds.append(gens.get_cmd(rng, 0))
+            elif r < 0.8: cmds.append(gens.get_cmd(rng, 0))
+            elif r < 0.85: cmds.append("getnull 0 %s %s %s" % (rng.choice(["string", "int", "int64", "uint", "uint64", "bool", "float", "double"]),
+                                                                gens.enc(rng.choice(gens.SECTIONS)), gens.enc(rng.choice(gens.KEYS))))      # NULL result pointer
             elif r < 0.93: cmds.append("keys 0 " + gens.enc(rng.choice(gens.SECTIONS)))
             else: cmds.append("groups 0")
             obs.append(True)
